@@ -43,7 +43,8 @@ def gen_stat(args):
     recs = []
     for lab, v in args:
         la = np.array(lab, dtype=int)
-        va = np.array(v, dtype=float)
+        # value vectors are presented as float64 and as integer arrays in turn (a statistic must not inherit the values' dtype)
+        va = np.array(v, dtype=(float if (sum(v) + len(lab)) % 2 == 0 else np.int64))
         for f, fn in FUNCS.items():
             o = core.guarded(emd.cycles.get_cycle_stat, la, va, func=fn)
             p = core.guarded(emd.cycles.get_cycle_stat, la, va, func=fn, out='samples')
